@@ -118,9 +118,25 @@ CLASSES = {'PageTemplate': PageTemplate, 'MyPT': MyPT, 'OtherPT': OtherPT, 'Page
            'PageTemplateFile': PageTemplateFile}
 
 
+FSIZE = int(os.environ.get('C15_FSIZE', '0'))
+if FSIZE:
+    # a file-size limit (the portable stand-in for a full disk / quota): write(2) on regular files comes back short
+    # and then fails with EFBIG once the limit is reached (CPython ignores SIGXFSZ)
+    import resource
+    resource.setrlimit(resource.RLIMIT_FSIZE, (FSIZE, FSIZE))
+
+
 def build(job):
     kw = dict(job.get('cfg', {}))
     cls = CLASSES[job.get('cls', 'PageTemplate')]
+    if job.get('file_name'):
+        # a file template: the body is written to <file_dir>/<file_name> first (the same path in every process)
+        os.makedirs(job['file_dir'], exist_ok=True)
+        path = os.path.join(job['file_dir'], job['file_name'])
+        with open(path, 'w', encoding='utf-8') as f:
+            f.write(job['body'])
+        job = dict(job, body=path)
+        cls = PageTemplateFile
     for k in ('boolean_attributes', 'implicit_i18n_attributes'):
         if k in kw:
             kw[k] = set(kw[k])
